@@ -4,6 +4,8 @@ import glob, json, os
 V = os.path.dirname(os.path.dirname(os.path.abspath(__file__)))
 ids = [json.loads(l)["id"] for l in open(os.path.join(V, "properties.jsonl"))]
 props = {os.path.basename(p)[:-5]: json.load(open(p)) for p in glob.glob(os.path.join(V, "tools", "props", "C*.json"))}
+ready = set(open(os.path.join(V, "tools", "ready.txt")).read().split())   # properties the orchestrator has accepted
+props = {k: v for k, v in props.items() if k in ready}
 na_path = os.path.join(V, "tools", "not_applicable.json")
 na = json.load(open(na_path)) if os.path.exists(na_path) else {}
 hooks = json.load(open(os.path.join(V, "tools", "hooks.json")))
